@@ -221,6 +221,7 @@ class C07(CheckBase):
     def gen_case(self, rng, tier, index):
         src = rng.weighted([(10, 'generated'), (4, 'flux'), (4, 'genflux'), (3, 'random')])
         image = {}
+        image_cmd = None
         if src == 'generated':
             image = dfswork.gen_image(rng)
             ext = image['ext']
@@ -255,6 +256,17 @@ class C07(CheckBase):
                     fc['marks'] = {}
                 dmg.setdefault('%d:0' % sd, []).append({'k': 'drop', 'region': rng.choice(['data', 'datamark', 'idmark', 'datacrc']), 'rec': rec,
                                                         'off': rng.below(4000), 'len': 16, 'v': 0})
+            if rng.chance(0.15):
+                # one sector of another size among the 256-byte ones (well-formed on the medium, unsupported by the tools):
+                # the readers hand sectors around in 256-byte buffers
+                t = rng.below(fc['tracks'])
+                r = rng.weighted([(4, rng.randint(1, fc['spt'] - 1)), (1, 0)])
+                bs = rng.below(fc['sides'])
+                fc['bigsec'] = {'%d:%d:%d' % (bs, t, r): rng.choice([2, 3, 2, 0])}
+                image_cmd = rng.weighted([(4, ['dump-sector', str(2 * bs), str(t), str(r)]), (2, ['extract-unused', 'out']), (1, ['extract-files', 'out']), (2, None)])
+                if rng.chance(0.6):
+                    dmg.clear()
+                    fc['marks'] = {}
             ext = 'mfm' if fc['container'] == 'mfm' else 'hfe'
             image = {'genflux': fc, 'surfaces': surfaces, 'damage': dmg, 'ext': ext}
             size = 400000
@@ -306,6 +318,9 @@ class C07(CheckBase):
                 case['cmd'] = [rng.choice(['cat', 'free', 'sector-map', 'info']), drives[-1] if rng.chance(0.5) else str(ndrv - 1)]
                 if case['cmd'][0] == 'info':
                     case['cmd'][1] = ':%s.*.*' % case['cmd'][1]
+        if image_cmd:
+            # a command that reads the sector the case is about
+            case['cmd'] = image_cmd
         return case
 
     # ---------------------------------------------------------------- execution
